@@ -13,7 +13,7 @@ WorldCfg cfg_for(const std::string &p) {
     else if (p == "C04") { c.judged = [](const std::string &op) { return op == "roundtrip"; }; }
     else if (p == "C05") { c.judged = [](const std::string &op) { return op == "strictprint"; }; }
     else if (p == "C09") { c.judged = [](const std::string &op) { return op == "capscan"; }; }
-    else if (p == "C11") { c.judge_independence = true; c.judged = [](const std::string &op) { return in(op, {"dupcheck", "dup_deep", "dup_cyclic", "dup_wide", "dup_refcycle"}); }; }
+    else if (p == "C11") { c.judge_independence = true; c.judged = [](const std::string &op) { return in(op, {"dupcheck", "dup", "dup_deep", "dup_cyclic", "dup_wide", "dup_refcycle"}); }; }
     else if (p == "C16") { c.judged = [](const std::string &op) { return in(op, {"patch_apply"}); }; }
     else if (p == "C17") { c.judge_followup = true; c.judged = [](const std::string &op) { return in(op, {"patch_gen"}); }; }
     else if (p == "C18") { c.judge_followup = true; c.judged = [](const std::string &op) { return in(op, {"merge_apply", "merge_gen"}); }; }
